@@ -2,7 +2,7 @@
 import os
 
 from . import core
-from .rules import stdio, cert, mark, exact, optstore, inval, idx, atomic, own, tokens, idxclass, copy, pair, structfree, buf, div, counter, sentinel, appendinit, verdict, basismap, zerotol, escape, lenclass, djsym, ndet, useb4check, norms, opencheck, shell, esolver, errlost, rescan
+from .rules import stdio, cert, mark, exact, optstore, inval, idx, atomic, own, tokens, idxclass, copy, pair, structfree, buf, div, counter, sentinel, appendinit, verdict, basismap, zerotol, escape, lenclass, djsym, ndet, useb4check, norms, opencheck, shell, esolver, errlost, rescan, certdep
 from .effects import Effects
 
 FIX = os.path.join(os.path.dirname(os.path.abspath(__file__)), "fixtures")
@@ -152,6 +152,7 @@ def c01_rules():
         lambda prog, tier: optstore.run(prog),
         lambda prog, tier: exact.run(prog, cert_scopes(prog, "OPT")),
         lambda prog, tier: idxclass.run(prog, scope_units=("qsopt_ex/exact.c", "lib_mpq.c", "qsopt_mpq.c")),
+        lambda prog, tier: certdep.run(prog, which=("QSexact_optimal_test",)),
     ]
 
 
@@ -161,6 +162,7 @@ def c02_rules():
         lambda prog, tier: mark.run(prog, which=("QSexact_infeasible_test",)),
         lambda prog, tier: optstore.run(prog),
         lambda prog, tier: exact.run(prog, cert_scopes(prog, "INF")),
+        lambda prog, tier: certdep.run(prog, which=("QSexact_infeasible_test",)),
     ]
 
 
@@ -195,31 +197,42 @@ PROPS = {
     "C01": {
         "rules": c01_rules(),
         "technique": "path-sensitive typestate dataflow (set-of-tuples, all CFG paths) on QSexact_solver / QSexact_optimal_test over "
-                     "clang::CFG; who-may-publish ownership rule; lossy-conversion sink census in call-graph scopes",
+                     "clang::CFG; who-may-publish ownership rule; lossy-conversion sink census in call-graph scopes; flow-sensitive data-dependence "
+                     "analysis with index-space tags + per-iteration must-pass analysis of comparison gates inside the exact test",
         "explanation": "Decides the plumbing clause of C01: on every path of QSexact_solver that returns 0 with *status == OPTIMAL the exact "
                        "optimality test returned true on the caller's problem and exactly the tested vectors were handed over (R-CERT, "
                        "R-OUTCOPY); the test returns true only through its success marker, which no failing path reaches, and fills the "
                        "solution cache on no failing path (R-MARK); OPTIMAL is stored into the problem/cache only by the owner functions "
-                       "(R-OPTSTORE); certificate and accessor code performs no lossy number conversion outside log arguments (R-EXACT).",
+                       "(R-OPTSTORE); certificate and accessor code performs no lossy number conversion outside log arguments (R-EXACT); "
+                       "(R-CERTDEP) inside the exact test every primal value of both variable classes is ordered against both bounds of its own "
+                       "column on every path of every iteration, every row equation, every complementary-slackness product (both classes, both "
+                       "sides) and the objective equality is tested by a gate that fails on both signs and depends - by a flow-sensitive "
+                       "data-dependence analysis with index-space tags - on all the LP data it has to depend on.",
         "level_text": "All-paths structural guarantee for the certification plumbing (a necessary condition of C01): any code change that lets "
                       "OPTIMAL escape without test+hand-over, lets a failed check fall through, publishes OPTIMAL elsewhere, or slips a "
                       "double conversion into the certificate path is reported with a witness path. It does not decide that the arithmetic "
                       "inside the test is sufficient.",
         "level_note": CERT_NOTE,
-        "not_decided": "mathematical sufficiency of the comparisons inside QSexact_optimal_test; that mpq_QSopt_primal/dual end at an optimal "
+        "not_decided": "the arithmetic inside the gates of QSexact_optimal_test (only their presence, coverage, failing outcomes and data "
+                       "dependences are decided - R-CERTDEP); that mpq_QSopt_primal/dual end at an optimal "
                        "vertex (only that they judge at tolerance zero - R-ZEROTOL, claimed under C12/C13)",
     },
     "C02": {
         "rules": c02_rules(),
         "technique": "path-sensitive typestate dataflow (set-of-tuples, all CFG paths) on QSexact_solver / QSexact_infeasible_test over "
-                     "clang::CFG; who-may-publish ownership rule; lossy-conversion sink census",
+                     "clang::CFG; who-may-publish ownership rule; lossy-conversion sink census; flow-sensitive data-dependence analysis with "
+                     "index-space tags + per-iteration must-pass analysis of comparison gates inside the exact test",
         "explanation": "Same plumbing for INFEASIBLE: rv == 0 and *status == INFEASIBLE leave QSexact_solver only after "
                        "QSexact_infeasible_test returned true on the caller's problem and infeasible_output handed over the tested "
-                       "multiplier vector; the test returns true only through its marker; no lossy conversion in the certificate code.",
+                       "multiplier vector; the test returns true only through its marker; no lossy conversion in the certificate code; "
+                       "(R-CERTDEP) the Farkas value tested last before the marker is rejected exactly when it is <= 0 and depends on rhs, the "
+                       "multipliers, the matrix and the lower and upper bounds of ALL internal columns (structural and logical), and every "
+                       "internal column passes, on every path of its iteration, the two gates that forbid a multiplier on an infinite bound.",
         "level_text": "All-paths structural guarantee for the Farkas-certificate plumbing (necessary condition of C02). Found a genuine defect "
                       "on the pinned tree (feasible LP reported INFEASIBLE after ladder exhaustion; fixed in /repo b42ef0a).",
         "level_note": CERT_NOTE,
-        "not_decided": "that the inequality on infinite bounds inside the test is the right one; that ILLsimplex_infcertificate produces a ray",
+        "not_decided": "the arithmetic inside the test beyond presence / coverage / failing outcomes / data dependences of its gates (e.g. the "
+                       "sign split of A^T y into the two bound multipliers); that ILLsimplex_infcertificate produces a ray",
     },
     "C05": {
         "rules": c05_rules(),
